@@ -153,8 +153,8 @@ CHECKS["C07"] = {
     "level": "proof",
     "quick_fs": ["default"],
     "thorough_fs": ["default", "checks", "no_copy_impls", "both"],
-    "technique": "affine ghost-position accounting by abstract interpretation of MIR (loop summaries, contracts for the word backends), per word size; structural rules for accessors and backends",
-    "claim": "Positions, for every history because each method is checked on all paths from an arbitrary invariant-satisfying state: bit_pos() returns pos = W*word_pos - bits_in_buffer and does not move; set_bit_pos(p) (never executed by the suite) establishes pos' = p via set_word_pos(p / W), the cleared buffer and the partial reload, with all divisions/shifts in range and the buffer-counter invariant restored; every read, skip, peek, unary read and skip-after-peek moves pos by exactly its declared amount for W in {u8..u64}; the unbuffered reader's accessors are exact; memory backends report/store the cursor exactly and reject only positions > len; the byte adapter divides and multiplies by the same W::BYTES. Undecided: the contents seen after a seek (needs the cleanliness clause / bit values).",
+    "technique": "affine ghost-position accounting by abstract interpretation of MIR (loop summaries, contracts for the word backends), per word size; bit-sequence domain for the buffer content after a seek; structural rules for accessors and backends",
+    "claim": "Positions, for every history because each method is checked on all paths from an arbitrary invariant-satisfying state: bit_pos() returns pos = W*word_pos - bits_in_buffer and does not move; set_bit_pos(p) (never executed by the suite) establishes pos' = p via set_word_pos(p / W), the cleared buffer and the partial reload, with all divisions/shifts in range and the buffer-counter invariant restored; every read, skip, peek, unary read and skip-after-peek moves pos by exactly its declared amount for W in {u8..u64}; the unbuffered reader's accessors are exact; memory backends report/store the cursor exactly and reject only positions > len; the byte adapter divides and multiplies by the same W::BYTES; (S.content, bit-sequence domain) after set_bit_pos(p) the backend stands at word p / W and the buffer holds exactly the last W - p%W stream bits of the one word fetched (nothing when p%W = 0), zeros elsewhere - the state a fresh reader reaches after consuming p bits, from which C02.R7 gives the content of every later read. Undecided: seeks through the byte adapter beyond A4 (C11).",
     "note": "Trusted: rustc MIR, exporter, contracts, ghost model, LP entailment; lemma L2 (no overflow for streams < 2^64 bits).",
     "explanation": "E4 accounting + E3 + structural",
 }
